@@ -111,12 +111,28 @@ GCompI == [kind |-> "composite", ends |-> <<>>, pts |-> <<>>, instr |-> <<64, 1,
                        [flags |-> 896, gid |-> 0, a1 |-> 3, a2 |-> 200, tr |-> <<16384, -1, 1, -16384>>]>>]
 Pool == <<GEmpty, GTri, GTwo, GBig, GComp, GCompI>>
 
+\* `meta`: 0 = no extended metadata / private data block, 1 = metadata block, 2 = metadata + private data (the
+\* compressed table data is then NOT the tail of the file).  `tags`: "known" = known-tag index wherever there is one,
+\* "explicit" = every table but glyf / loca / hmtx spelled out (index 63 + tag), "explicitall" = every table
+\* spelled out, glyf / loca / hmtx / head / maxp / hhea included (the transform is a property of the TAG).
+\* `overlap` = 1: optionFlags bit 0 set and an overlapSimpleBitmap after the instruction stream (OverlapRule).
 Bundles == <<
-  [trip |-> "ref", u16 |-> "short", bbox |-> "needed", order |-> "asis",    tags |-> "known",    overlap |-> 0, loca |-> 0, chunk |-> 65536],
-  [trip |-> "max", u16 |-> "word",  bbox |-> "all",    order |-> "bytag",   tags |-> "explicit", overlap |-> 1, loca |-> 1, chunk |-> 7],
-  [trip |-> "alt", u16 |-> "alt",   bbox |-> "needed", order |-> "reverse", tags |-> "known",    overlap |-> 0, loca |-> 1, chunk |-> 1000],
-  [trip |-> "min", u16 |-> "short", bbox |-> "all",    order |-> "bytag",   tags |-> "explicit", overlap |-> 0, loca |-> 0, chunk |-> 16777216] >>
-CollModes == <<"single", "same", "hm", "other">>
+  [trip |-> "ref", u16 |-> "short", bbox |-> "needed", order |-> "asis",    tags |-> "known",       overlap |-> 0, loca |-> 0, chunk |-> 65536,    meta |-> 0],
+  [trip |-> "max", u16 |-> "word",  bbox |-> "all",    order |-> "bytag",   tags |-> "explicit",    overlap |-> 1, loca |-> 1, chunk |-> 7,        meta |-> 1],
+  [trip |-> "alt", u16 |-> "alt",   bbox |-> "needed", order |-> "reverse", tags |-> "known",       overlap |-> 0, loca |-> 1, chunk |-> 1000,     meta |-> 2],
+  [trip |-> "min", u16 |-> "short", bbox |-> "all",    order |-> "bytag",   tags |-> "explicitall", overlap |-> 1, loca |-> 0, chunk |-> 16777216, meta |-> 0],
+  [trip |-> "ref", u16 |-> "alt",   bbox |-> "needed", order |-> "reverse", tags |-> "explicitall", overlap |-> 0, loca |-> 0, chunk |-> 4096,     meta |-> 1] >>
+\* collection modes: one font / two identical fonts (everything shared) / same glyphs, other advances (glyf + loca
+\* shared, hmtx not) / reversed glyph order (own glyf, loca, hmtx; same counts) /
+\*   "sub"  second member with TWO MORE glyphs, another numberOfHMetrics and the other loca format (own maxp, hhea,
+\*          head, hmtx, glyf, loca, cmap: a decoder must take every one of them from the member it decodes)
+\*   "tri"  three members: F1, reversed, F1 with other advances (the third shares glyf + loca with the first, behind
+\*          the second member's tables)
+\*   "mixt" second member (reversed glyphs) stored with the OTHER glyf / loca transform version and a plain hmtx
+CollModes == <<"single", "same", "hm", "other", "sub", "tri", "mixt">>
+\* glyphs whose first flag carries OVERLAP_SIMPLE in the source font when a bundle asks for the overlap bitmap:
+\* the simple glyphs with an odd glyph number (1-based even positions)
+OverlapRule(recs, g) == IF recs[g].kind = "simple" /\ g % 2 = 0 THEN 1 ELSE 0
 
 \* metrics of a glyph sequence under a side-bearing policy
 MkFont(recs, nhm, lsbpol, advBase) ==
@@ -126,49 +142,70 @@ MkFont(recs, nhm, lsbpol, advBase) ==
       adv |-> [g \in 1 .. n |-> advBase + 10 * (IF g <= nhm THEN g ELSE nhm)],
       lsb |-> [g \in 1 .. n |->
                  IF g <= nhm THEN (IF lsbpol \in {"head", "none"} THEN xmin[g] + 7 ELSE xmin[g])
-                 ELSE (IF lsbpol \in {"tail", "none"} THEN xmin[g] - 3 ELSE xmin[g])]]
+                 ELSE (IF lsbpol \in {"tail", "none"} THEN (IF xmin[g] < -32000 THEN xmin[g] + 3 ELSE xmin[g] - 3)   \* stays an int16
+                       ELSE xmin[g])]]
 
 LsbPols(hf) == CASE hf = 0 -> {"none"} [] hf = 1 -> {"match", "tail"} [] hf = 2 -> {"match", "head"} [] hf = 3 -> {"match"}
 \* one font case: `id` names it, `recs` is the glyph sequence, `bun` an encoder bundle, `zlen` the
 \* length of the arbitrary-tag table ZZZZ of the concrete font (UIntBase128 boundary lengths)
-FontCaseOf(id, recs, gt, hf, nhm, lp, bun, coll, zlen) ==
-  LET F1 == MkFont(recs, nhm, lp, 500)
+\* two more glyphs for the second member of mode "sub": a triangle whose box is not the tight one, an empty glyph
+GSubExtra == [GTri EXCEPT !.bbox = <<9, 19, 301, 400>>]
+FontCaseAdv(id, recs, gt, hf, nhm, lp, bun, coll, zlen, advBase) ==
+  LET F1 == MkFont(recs, nhm, lp, advBase)
+      adv1 == IF advBase > 60000 THEN advBase - 100 ELSE advBase + 100
+      adv2 == IF advBase > 60000 THEN advBase - 200 ELSE advBase + 200
+      recs2 == recs \o <<GSubExtra, GEmpty>>
       fonts == CASE coll = "single" -> <<F1>>
                  [] coll = "same"   -> <<F1, F1>>
-                 [] coll = "hm"     -> <<F1, MkFont(recs, nhm, lp, 600)>>
-                 [] coll = "other"  -> <<F1, MkFont(Reverse(recs), nhm, lp, 500)>>
+                 [] coll = "hm"     -> <<F1, MkFont(recs, nhm, lp, adv1)>>
+                 [] coll = "other"  -> <<F1, MkFont(Reverse(recs), nhm, lp, advBase)>>
+                 [] coll = "sub"    -> <<F1, MkFont(recs2, IF nhm = 1 THEN Len(recs2) ELSE 1, lp, adv2)>>
+                 [] coll = "tri"    -> <<F1, MkFont(Reverse(recs), nhm, lp, advBase), MkFont(recs, nhm, lp, adv1)>>
+                 [] coll = "mixt"   -> <<F1, MkFont(Reverse(recs), nhm, lp, advBase)>>
+      \* per member: glyf / loca transform version, hmtx flags (0 = stored as is), head.indexToLocFormat
+      fo == [k \in 1 .. Len(fonts) |->
+               IF coll = "mixt" /\ k = 2 THEN [gt |-> 3 - gt, hf |-> 0, loca |-> bun.loca]
+               ELSE IF coll = "sub" /\ k = 2 THEN [gt |-> gt, hf |-> hf, loca |-> 1 - bun.loca]
+               ELSE [gt |-> gt, hf |-> hf, loca |-> bun.loca]]
       ch == [trip |-> bun.trip, u16 |-> bun.u16, bbox |-> bun.bbox]
       \* per font: streams, their decoding, the transformed tables
-      X(f) == LET n == Len(f.glyphs)
+      X(f, o) ==
+              LET n == Len(f.glyphs)
                   S == EncGlyf(f.glyphs, ch)
                   D == DecAll(S, n)
                   xmin == [g \in 1 .. n |-> XMinOf(f.glyphs[g])]
-                  tail == IF bun.overlap = 1 THEN [k \in 1 .. BitmapLen(n) |-> 0] ELSE <<>>
-                  tbl == GlyfTableBytes(S, n, bun.loca, bun.overlap, tail)
-                  hb == IF hf = 0 THEN <<>> ELSE EncHmtx(hf, n, f.nhm, f.adv, f.lsb)
-                  hd == IF hf = 0 THEN [ok |-> TRUE, adv |-> f.adv, lsb |-> f.lsb]
+                  tail == IF bun.overlap = 1 THEN OverlapBytes([g \in 1 .. n |-> OverlapRule(f.glyphs, g)]) ELSE <<>>
+                  tbl == GlyfTableBytes(S, n, o.loca, bun.overlap, tail)
+                  hb == IF o.hf = 0 THEN <<>> ELSE EncHmtx(o.hf, n, f.nhm, f.adv, f.lsb)
+                  hd == IF o.hf = 0 THEN [ok |-> TRUE, adv |-> f.adv, lsb |-> f.lsb]
                         ELSE DecHmtx(hb, n, f.nhm, [g \in 1 .. n |-> XMinOf(D.recs[g])])
               IN [ok |-> /\ D.ok /\ D.recs = f.glyphs                 \* Decode o Encode = identity
                          /\ D.cur = EndCur(S)                          \* every stream consumed exactly
                          /\ \A g \in 1 .. n :                           \* cursor discipline
                               StepDiscipline(IF g = 1 THEN Cur0 ELSE D.curs[g - 1], D.curs[g], D.recs[g])
                          /\ Len(S.nc) = 2 * n /\ Len(S.bm) = BitmapLen(n)
-                         /\ LET pg == ParseGlyfTable(tbl) IN pg.ok /\ pg.S = S /\ pg.n = n
-                         /\ (hf # 0 => HmtxAllowed(hf, n, f.nhm, f.lsb, xmin))
+                         /\ Len(tail) = (IF bun.overlap = 1 THEN OverlapLen(n) ELSE 0)
+                         \* the overlap bitmap is outside the seven streams: the table parses to the same streams with it
+                         /\ LET pg == ParseGlyfTable(tbl) IN pg.ok /\ pg.S = S /\ pg.n = n /\ pg.optionFlags = bun.overlap
+                         /\ (o.hf # 0 => o.gt = 0 /\ HmtxAllowed(o.hf, n, f.nhm, f.lsb, xmin))
                          /\ hd.ok /\ hd.adv = f.adv /\ hd.lsb = f.lsb   \* lsb[g] = xMin[g] for g >= numHMetrics too
-                         /\ (hf # 0 => Len(hb) = 1 + 2 * f.nhm + (IF hf % 2 = 0 THEN 2 * f.nhm ELSE 0)
-                                                 + (IF hf \div 2 = 0 THEN 2 * (n - f.nhm) ELSE 0)),
-                  xglyf |-> tbl, xhmtx |-> hb]
-      R == [k \in 1 .. Len(fonts) |-> X(fonts[k])]
+                         /\ (o.hf # 0 => Len(hb) = 1 + 2 * f.nhm + (IF o.hf % 2 = 0 THEN 2 * f.nhm ELSE 0)
+                                                 + (IF o.hf \div 2 = 0 THEN 2 * (n - f.nhm) ELSE 0)),
+                  xglyf |-> IF o.gt = 0 THEN tbl ELSE <<>>, xhmtx |-> hb]
+      R == [k \in 1 .. Len(fonts) |-> X(fonts[k], fo[k])]
   IN [ok |-> \A k \in DOMAIN R : R[k].ok,
       json |-> [kind |-> "font", id |-> id,
                 fonts |-> fonts,          \* input = expected reconstruction (identity checked above)
                 diff |-> <<>>,            \* no untransformed table may differ from its original
                 ch |-> [glyf |-> gt, hmtx |-> hf, trip |-> bun.trip, u16 |-> bun.u16, bbox |-> bun.bbox,
                         order |-> bun.order, tags |-> bun.tags, overlap |-> bun.overlap, loca |-> bun.loca,
-                        chunk |-> bun.chunk, coll |-> coll, zlen |-> zlen],
-                xglyf |-> [k \in DOMAIN R |-> IF gt = 0 THEN R[k].xglyf ELSE <<>>],
+                        chunk |-> bun.chunk, coll |-> coll, zlen |-> zlen, meta |-> bun.meta,
+                        fgt |-> [k \in DOMAIN fo |-> fo[k].gt], fhf |-> [k \in DOMAIN fo |-> fo[k].hf],
+                        floca |-> [k \in DOMAIN fo |-> fo[k].loca]],
+                xglyf |-> [k \in DOMAIN R |-> R[k].xglyf],
                 xhmtx |-> [k \in DOMAIN R |-> R[k].xhmtx]]]
+
+FontCaseOf(id, recs, gt, hf, nhm, lp, bun, coll, zlen) == FontCaseAdv(id, recs, gt, hf, nhm, lp, bun, coll, zlen, 500)
 
 FontCase(p) ==
   LET s == p[2] IN
@@ -208,7 +245,7 @@ NgInit == \E q \in NgParams : (q[3] = 1 => q[4] = "comp") /\ c = q          \* n
 NgCase(p) ==
   LET n == p[2]  place == NgPlaces[p[3]]
       mix == n + 3 * p[3] + (IF p[4] = "comp" THEN 0 ELSE 5) + (IF p[5] = "empty" THEN 0 ELSE 7)
-      bu == IF p[6] = "needed" THEN Pick(<<1, 3>>, mix) ELSE Pick(<<2, 4>>, mix)
+      bu == IF p[6] = "needed" THEN Pick(<<1, 3, 5>>, mix) ELSE Pick(<<2, 4>>, mix)
       hf == mix % 4
       nhm0 == Pick(<<1, n - 1, n, 32, 31, 33>>, mix \div 2)
       nhm == IF nhm0 < 1 THEN 1 ELSE IF nhm0 > n THEN n ELSE nhm0
@@ -266,6 +303,33 @@ LocaCases == IF Quick THEN {<<"loca", 2, 0, 1>>, <<"loca", 4, 0, 3>>, <<"loca", 
 LocaCase(d, l, b) ==
   FontCaseOf(<<"loca", 131068 + d, l, b>>, <<GInstr(65505), GInstr(65505 + d), GEmpty>>, 0, 1, 2, "match",
              [Bundles[b] EXCEPT !.loca = l], "single", 13)
+
+---------------------------------------------------------------------------
+\* ext: values at the ends of their fields, through the whole path (triplets of 16 + 16 bits, explicit and computed
+\* bounding boxes, the rebuilt glyf records, xMin as left side bearing).  Every delta between consecutive points
+\* stays inside int16 (what a glyf table can hold): 32767 and -32768 both occur as deltas and as coordinates.
+GExtA == [kind |-> "simple", ends |-> <<3>>,
+          pts |-> <<P(32767, -32768, 1), P(0, -1, 0), P(-32768, 32766, 1), P(-1, 32767, 1)>>,
+          instr |-> <<>>, bbox |-> <<-32768, -32768, 32767, 32767>>, comps |-> <<>>]
+\* the stored box is NOT the tight one (explicit), and its xMin -32768 is what an elided side bearing must become
+GExtB == [kind |-> "simple", ends |-> <<0, 2>>,
+          pts |-> <<P(-32767, 32767, 0), P(0, 0, 1), P(32767, -32767, 1)>>,
+          instr |-> <<255, 0, 255>>, bbox |-> <<-32768, -32768, 32767, 32767>>, comps |-> <<>>]
+\* component arguments, glyph indices and F2Dot14 values at the ends of their ranges, one component per argument mode
+GExtC == [kind |-> "composite", ends |-> <<>>, pts |-> <<>>, instr |-> <<0>>, bbox |-> <<-32768, -32768, 32767, 32767>>,
+          comps |-> <<[flags |-> 35 + 128,  gid |-> 65535, a1 |-> -32768, a2 |-> 32767, tr |-> <<-32768, 32767, 32767, -32768>>],
+                      [flags |-> 33 + 64,   gid |-> 0,     a1 |-> 65535,  a2 |-> 0,     tr |-> <<32767, -32768>>],
+                      [flags |-> 34 + 8,    gid |-> 65535, a1 |-> -128,   a2 |-> 127,   tr |-> <<-32768>>],
+                      [flags |-> 0 + 256,   gid |-> 1,     a1 |-> 255,    a2 |-> 0,     tr |-> <<>>]>>]
+ExtSeqs == << <<GExtA>>, <<GEmpty, GExtB>>, <<GExtA, GExtC, GExtB>>, <<GExtC, GEmpty, GExtA, GExtB>> >>
+\* <<"ext", sequence number, bundle, hmtx flags>>; advances up to 65535
+ExtInit == \E q \in 1 .. Len(ExtSeqs) : \E bu \in 1 .. Len(Bundles) : \E hf \in 0 .. 3 : c = <<"ext", q, bu, hf>>
+ExtCase(p) ==
+  LET recs == ExtSeqs[p[2]]  n == Len(recs)  hf == p[4]
+      mix == p[2] + 2 * p[3] + 3 * hf
+      \* (MkFont's advances: base + 10 g; the base 65495 puts the last long metric of a 4-glyph font on 65535)
+  IN FontCaseAdv(<<"ext", p[2], p[3], hf>>, recs, 0, hf, IF mix % 2 = 0 THEN n ELSE 1, Pick(LsbPolSeq(hf), mix),
+                 Bundles[p[3]], Pick(CollModes, mix), Pick(ZLens, mix), 65495)
 
 ---------------------------------------------------------------------------
 \* cp: composite glyphs of k = 1..3 components in which the POSITION of every per-component property varies.
@@ -399,12 +463,34 @@ DirTablesCase(cmode) ==
 DirFontsCase(nf, cmode) ==
   DirCollCase(<<<<2>>, nf, cmode>>, 5,
               [f \in 1 .. nf |-> [flavor |-> TrueTypeFlavor, idx |-> <<f % 5>>]], cmode)
+\* every known-tag index 0 .. 62 in ONE directory (the flag byte alone names the tag), in index order / reversed,
+\* and the same 63 tags spelled out with index 63; glyf / loca transformed or not, hmtx transformed.  The expected
+\* tags come from KnownTags (transcribed from the table of the recommendation, section 4.1), so a known-tag table
+\* of a decoder with two entries exchanged (feat / Feat, bdat / bloc ...) contradicts it whatever fonts are sampled.
+DirKnownCase(m) ==
+  LET n == 63
+      K(k) == IF m = 2 THEN 64 - k ELSE k
+      es == [k \in 1 .. n |->
+              LET tag == KnownTags[K(k)]
+                  ver == IF IsGlyfLoca(tag) THEN (IF m = 3 THEN 3 ELSE 0) ELSE IF tag = TagHMTX /\ m # 3 THEN 1 ELSE 0
+              IN [tag |-> tag, explicit |-> (m = 4), ver |-> ver, orig |-> 10 + K(k),
+                  tlen |-> IF ~HasTransformLength(tag, ver) THEN -1 ELSE IF tag = TagLOCA THEN 0 ELSE 40 + K(k)]]
+      bytes == Flat([k \in 1 .. n |-> EncDirEntry(es[k])])
+      d == DecDirectory(bytes, n)
+  IN [ok |-> /\ d.ok /\ d.used = Len(bytes)
+             /\ \A k \in 1 .. n : d.entries[k].tag = KnownTags[K(k)] /\ d.entries[k].orig = 10 + K(k)
+             /\ (m # 4 => Len(bytes) = 63 + 63 + (IF m = 3 THEN 0 ELSE 3))     \* one flag byte + one length byte (+ transformLength)
+             /\ Cardinality({KnownTags[k] : k \in 1 .. 63}) = 63,
+      json |-> [kind |-> "dir", id |-> <<<<3>>, m, 0>>, n |-> n, dir |-> bytes, coll |-> <<>>,
+                exp |-> [entries |-> [k \in 1 .. n |-> <<d.entries[k].tag, d.entries[k].off, d.entries[k].orig, d.entries[k].tlen>>],
+                         fonts |-> <<>>]]]
 DirCases ==
   {<<"dir", ts, salt, cm>> : ts \in UNION {SeqsOf(1 .. Len(DirTemplates), n) : n \in 1 .. (IF Quick THEN 2 ELSE 3)},
                              salt \in 0 .. (IF Quick THEN 1 ELSE 2), cm \in 0 .. 3}
   \cup {<<"dirbig", cm>> : cm \in 1 .. 3}
   \cup {<<"dirtables", cm>> : cm \in 1 .. 3}
   \cup {<<"dirfonts", nf, cm>> : nf \in {252, 253, 506}, cm \in 1 .. 3}
+  \cup {<<"dirknown", m>> : m \in 1 .. 4}
 
 ---------------------------------------------------------------------------
 CaseResult(p) ==
@@ -422,6 +508,8 @@ CaseResult(p) ==
     [] p[1] = "nc"     -> NcCase(p[2])
     [] p[1] = "loca"   -> LocaCase(p[2], p[3], p[4])
     [] p[1] = "cp"     -> CpCase(p)
+    [] p[1] = "ext"    -> ExtCase(p)
+    [] p[1] = "dirknown" -> DirKnownCase(p[2])
 
 \* glyph sequences up to MaxLen; up to FullLen every bundle x collection mode, beyond that one of
 \* each chosen by a mix of the other parameters; beyond ThinLen also only one hmtx flag value
@@ -454,6 +542,7 @@ Init ==
      \/ c \in {<<"nc", k>> : k \in NcCounts}
      \/ c \in LocaCases
      \/ CpInit
+     \/ ExtInit
      \/ c \in DirCases
 
 Next == ~done /\ done' = TRUE /\ c' = c
